@@ -37,7 +37,11 @@ Kinds == {"scalar", "seq", "map"}
 VARIABLES docs, keep, done
 vars == <<docs, keep, done>>
 \* bare: the document has no '---' line (only after a document that ended with '...', and without directives)
-DocChoices(first) == [dirs : (IF first \/ Full THEN DirLists ELSE DirListsSmall), yaml : BOOLEAN, res : (IF first THEN 0..2 ELSE 0..1), sp : (IF first THEN Spellings ELSE SpellingsLater), kind : (IF first \/ Full THEN Kinds ELSE {"scalar"}),
+\* Full (thorough tier, run in addition to the quick configuration): every directive list and node kind also in the later
+\* documents; the reserved-directive dimension (res) is then left to the quick configuration
+DirListsLater == {<<>>} \cup {<< <<h, p>> >> : h \in Handles, p \in {P1, P2}} \cup {<< <<h, P1>>, <<g, P2>> >> : h \in Handles, g \in Handles}
+DocChoices(first) == [dirs : (IF first THEN DirLists ELSE IF Full THEN DirListsLater ELSE DirListsSmall), yaml : BOOLEAN,
+                      res : (IF Full THEN {0} ELSE IF first THEN 0..2 ELSE 0..1), sp : (IF first THEN Spellings ELSE SpellingsLater), kind : (IF first \/ Full THEN Kinds ELSE {"scalar"}),
                       bare : (IF first THEN {FALSE} ELSE BOOLEAN)]
 Init == docs = <<>> /\ keep \in BOOLEAN /\ done = FALSE
 AddDoc == /\ ~done /\ Len(docs) < Docs
